@@ -136,6 +136,10 @@ type c05MX struct {
 	// TLSA: none ee-match ee-mismatch unusable servfail
 	TLSA string `json:"tlsa"`
 	AD   bool   `json:"ad"` // DNSSEC-authenticated A/TLSA answers for this MX
+	// the MX name is a CNAME: "" (no), cname-none (no TLSA at the canonical name: the records at the MX name
+	// count), cname-servfail (the TLSA lookup at the canonical name fails), cname-match (authenticated matching
+	// record at the canonical name: used, whatever is published at the MX name)
+	CNAME string `json:"cname,omitempty"`
 	// the server does not advertise the REQUIRETLS extension
 	NoReqTLS bool `json:"no_requiretls_extension"`
 }
@@ -144,8 +148,10 @@ type c05Msg struct {
 	RequireTLS bool `json:"requiretls"`
 	Override   bool `json:"tls_required_no"`
 	Quarantine bool `json:"quarantine"`
-	Second     bool `json:"second_domain"` // recipient at second.invalid (MX = mx2 only) instead of example.invalid
-	Both       bool `json:"both_domains"`  // recipients at example.invalid and then at second.invalid
+	QuarLate   bool `json:"quarantined_at_body_stage,omitempty"` // the flag is raised after the recipients were added (a body-stage check or the DMARC policy quarantines)
+	NonAtomic  bool `json:"per_recipient_body_path,omitempty"` // BodyNonAtomic (what the queue and the LMTP path use) instead of Body
+	Second     bool `json:"second_domain"`                     // recipient at second.invalid (MX = mx2 only) instead of example.invalid
+	Both       bool `json:"both_domains"`                      // recipients at example.invalid and then at second.invalid
 }
 
 type c05Scenario struct {
@@ -176,11 +182,12 @@ func c05Gen(t *rapid.T) c05Scenario {
 	for i, n := 0, rapid.IntRange(1, 2).Draw(t, "nmx"); i < n; i++ {
 		sc.MXs = append(sc.MXs, c05MX{Kind: rapid.SampledFrom(c05Kinds).Draw(t, "kind"),
 			TLSA: rapid.SampledFrom([]string{"none", "none", "ee-match", "ee-mismatch", "unusable", "servfail"}).Draw(t, "tlsa"), AD: rapid.IntRange(0, 3).Draw(t, "ad") != 0,
+			CNAME: rapid.SampledFrom([]string{"", "", "", "cname-none", "cname-servfail", "cname-match"}).Draw(t, "cname"),
 			NoReqTLS: rapid.IntRange(0, 2).Draw(t, "noreqtls") == 0})
 	}
 	for i, n := 0, rapid.IntRange(1, 3).Draw(t, "nmsgs"); i < n; i++ {
 		sc.Msgs = append(sc.Msgs, c05Msg{RequireTLS: rapid.IntRange(0, 3).Draw(t, "requiretls") == 0, Override: rapid.IntRange(0, 2).Draw(t, "override") == 0,
-			Quarantine: rapid.IntRange(0, 9).Draw(t, "quarantine") == 0, Second: len(sc.MXs) == 2 && rapid.IntRange(0, 3).Draw(t, "second") == 0,
+			Quarantine: rapid.IntRange(0, 9).Draw(t, "quarantine") == 0, NonAtomic: rapid.Bool().Draw(t, "non_atomic"), QuarLate: rapid.Bool().Draw(t, "quar_late"), Second: len(sc.MXs) == 2 && rapid.IntRange(0, 3).Draw(t, "second") == 0,
 			Both: len(sc.MXs) == 2 && rapid.IntRange(0, 3).Draw(t, "both") == 0})
 	}
 	return sc
@@ -313,9 +320,25 @@ func c05Run(sc c05Scenario) (vs []ev.V) {
 		addrOf[name] = servers[i].Addr
 		mxRecs = append(mxRecs, net.MX{Host: name + ".", Pref: uint16(10 * (i + 1))})
 		zones[name+"."] = mockdns.Zone{AD: mx.AD, A: []string{"127.0.0.1"}}
-		tlsaName := "_25._tcp." + name + "."
 		leaf := c05Certs[name+"/"+mx.Kind].leaf
 		other := c05CA
+		if mx.CNAME != "" {
+			canon := "canon-" + name + "."
+			zones[name+"."] = mockdns.Zone{AD: mx.AD, CNAME: canon}
+			zones[canon] = mockdns.Zone{AD: mx.AD, A: []string{"127.0.0.1"}}
+			ctlsa := "_25._tcp." + canon
+			switch mx.CNAME {
+			case "cname-servfail":
+				zones[ctlsa] = mockdns.Zone{Err: errors.New("scripted SERVFAIL")}
+			case "cname-match":
+				if leaf != nil {
+					zones[ctlsa] = mockdns.Zone{AD: mx.AD, Misc: c05TLSA(ctlsa, 3, 1, 1, c05SPKIHash(leaf))}
+				} else {
+					zones[ctlsa] = mockdns.Zone{AD: mx.AD, Misc: c05TLSA(ctlsa, 3, 1, 1, c05SPKIHash(other))}
+				}
+			}
+		}
+		tlsaName := "_25._tcp." + name + "."
 		switch mx.TLSA {
 		case "ee-match":
 			if leaf != nil {
@@ -329,6 +352,21 @@ func c05Run(sc c05Scenario) (vs []ev.V) {
 			zones[tlsaName] = mockdns.Zone{AD: mx.AD, Misc: c05TLSA(tlsaName, 7, 1, 1, c05SPKIHash(other))}
 		case "servfail":
 			zones[tlsaName] = mockdns.Zone{Err: errors.New("scripted SERVFAIL")}
+		}
+	}
+	// the model works on the records that count: those at the canonical name when the lookup there fails or
+	// yields authenticated records, otherwise those at the MX name (RFC 7672 2.2.2)
+	mxs := append([]c05MX(nil), sc.MXs...)
+	sc.MXs = mxs
+	for i := range sc.MXs {
+		if !sc.MXs[i].AD {
+			continue
+		}
+		switch sc.MXs[i].CNAME {
+		case "cname-servfail":
+			sc.MXs[i].TLSA = "servfail"
+		case "cname-match":
+			sc.MXs[i].TLSA = "ee-match"
 		}
 	}
 	// a server without a certificate cannot match a TLSA record: treat "ee-match" there as mismatch in the model
@@ -449,7 +487,7 @@ func c05Run(sc c05Scenario) (vs []ev.V) {
 		if m.Override {
 			hdr.Add("TLS-Required", "No")
 		}
-		meta := &module.MsgMetadata{ID: fmt.Sprintf("c05-%d", mi), SMTPOpts: smtp.MailOptions{RequireTLS: m.RequireTLS}, TLSRequireOverride: m.Override, Quarantine: m.Quarantine}
+		meta := &module.MsgMetadata{ID: fmt.Sprintf("c05-%d", mi), SMTPOpts: smtp.MailOptions{RequireTLS: m.RequireTLS}, TLSRequireOverride: m.Override, Quarantine: m.Quarantine && !m.QuarLate}
 		rcpt := "user@example.invalid"
 		if m.Second {
 			rcpt = "user@second.invalid"
@@ -473,7 +511,18 @@ func c05Run(sc c05Scenario) (vs []ev.V) {
 			}
 			results[mi] = result{}
 		}
-		if err := d.Body(ctx, hdr, buffer.MemoryBuffer{Slice: []byte(fmt.Sprintf("MSG-%d\r\n", mi))}); err != nil {
+		meta.Quarantine = m.Quarantine
+		body := buffer.MemoryBuffer{Slice: []byte(fmt.Sprintf("MSG-%d\r\n", mi))}
+		if pd, ok := d.(module.PartialDelivery); ok && m.NonAtomic {
+			col := &c05Statuses{}
+			pd.BodyNonAtomic(ctx, col, hdr, body)
+			if col.firstErr != nil {
+				results[mi] = result{col.firstErr, "body"}
+			}
+			d.Commit(ctx)
+			continue
+		}
+		if err := d.Body(ctx, hdr, body); err != nil {
 			results[mi] = result{err, "body"}
 			d.Abort(ctx)
 			continue
@@ -550,6 +599,19 @@ func c05Run(sc c05Scenario) (vs []ev.V) {
 
 var c05LastDelivered int
 
+type c05Statuses struct {
+	mu       sync.Mutex
+	firstErr error
+}
+
+func (c *c05Statuses) SetStatus(_ string, err error) {
+	c.mu.Lock()
+	if err != nil && c.firstErr == nil {
+		c.firstErr = err
+	}
+	c.mu.Unlock()
+}
+
 func c05Info(sc c05Scenario) ev.Info {
 	anyPolicy := sc.MTASTS == "enforce" || sc.DANE || sc.MinTLS == "encrypted" || sc.MinTLS == "authenticated"
 	unsat := false
@@ -581,5 +643,5 @@ func TestVerifC05(t *testing.T) {
 		"Oracle: for every message payload a server received, the facts of that server and connection (known by construction) satisfy every policy in force for that message; TLSA discovery failure " +
 		"defers. Non-trivial = some policy is in force and (some MX/TLS state does not satisfy it, or the messages of the history differ in their requirements). Distinct = distinct scenario.")
 	r.Assume("liveness (delivered if some MX qualifies) is only counted, not asserted")
-	ev.Run(t, r, ev.Spec[c05Scenario]{Name: "histories", N: r.N, Gen: c05Gen, Run: c05Run, Info: c05Info})
+	ev.Run(t, r, ev.Spec[c05Scenario]{Name: "histories", Journal: true, N: r.N, Gen: c05Gen, Run: c05Run, Info: c05Info})
 }
